@@ -298,6 +298,18 @@ fn handle(kind: &str, f: &[String]) -> String {
                 Err(e) => format!("ERR\t{}", verif::errkinds(&e).join(",")),
             }
         }
+        ("docfull", 2) => {
+            // like "doc", but failures carry the error's Display and Debug text (C06: error text is part of the result)
+            let cfg = parse_cfg(&f[0]);
+            match svgdx::transform_str(unhex_s(&f[1]), &cfg) {
+                Ok(s) => format!("OK\t{}", hex(s.as_bytes())),
+                Err(e) => format!(
+                    "ERR\t{}\t{}",
+                    hex(format!("{}", e).as_bytes()),
+                    hex(format!("{:?}", e).as_bytes())
+                ),
+            }
+        }
         ("docbytes", 2) => {
             // raw bytes through transform_stream (may be non-UTF-8)
             let cfg = parse_cfg(&f[0]);
